@@ -60,11 +60,22 @@ def validate(d, suite):
     wt = worktree(name, os.path.join(d, "patch.diff"))
     out = {"id": name}
     try:
+        equiv = os.path.abspath(os.path.join(d, "equiv.py"))
+        if os.path.exists(equiv) and not os.path.exists(os.path.join(d, "demo.py")):
+            # a behaviour-preserving change: equiv.py must print the same digest on both sources
+            r0 = sh(["timeout", "600", "/venv/bin/python", equiv], env=env("/repo/src"), cwd="/tmp")
+            r1 = sh(["timeout", "600", "/venv/bin/python", equiv], env=env(wt + "/src"), cwd="/tmp")
+            out.update(benign=True, equiv_unchanged_exit=r0.returncode, equiv_changed_exit=r1.returncode,
+                       equiv_same_output=(r0.stdout == r1.stdout), equiv_tail=r0.stdout[-300:], equiv_changed_tail=(r1.stdout + r1.stderr)[-300:])
+            out["demo_unchanged_exit"], out["demo_mutated_exit"] = 0, 1   # not applicable (keeps the verdict expression below)
+            if not (r0.returncode == 0 and r1.returncode == 0 and r0.stdout == r1.stdout):
+                out["demo_mutated_exit"] = -1
         demo = os.path.abspath(os.path.join(d, "demo.py"))
-        r0 = sh(["timeout", "600", "/venv/bin/python", demo], env=env("/repo/src"), cwd="/tmp")
-        r1 = sh(["timeout", "600", "/venv/bin/python", demo], env=env(wt + "/src"), cwd="/tmp")
-        out.update(demo_unchanged_exit=r0.returncode, demo_mutated_exit=r1.returncode,
-                   demo_unchanged_tail=(r0.stdout + r0.stderr)[-600:], demo_mutated_tail=(r1.stdout + r1.stderr)[-600:])
+        if not out.get("benign"):
+            r0 = sh(["timeout", "600", "/venv/bin/python", demo], env=env("/repo/src"), cwd="/tmp")
+            r1 = sh(["timeout", "600", "/venv/bin/python", demo], env=env(wt + "/src"), cwd="/tmp")
+            out.update(demo_unchanged_exit=r0.returncode, demo_mutated_exit=r1.returncode,
+                       demo_unchanged_tail=(r0.stdout + r0.stderr)[-600:], demo_mutated_tail=(r1.stdout + r1.stderr)[-600:])
         out["changed_lines"] = len([l for l in open(os.path.join(d, "patch.diff")) if re.match(r"^[+-][^+-]", l)])
         if suite:
             t0 = time.time()
@@ -114,7 +125,8 @@ def try_checks(d, props):
             r = sh(["./check", p, "--tier", "quick"], cwd=vcopy, env=dict(os.environ, VERIF_REPO=wt))
             lines = [l for l in r.stdout.splitlines() if l.startswith(("VIOLATION", "KNOWN-FINDING", "FAIL ", "BROKEN "))]
             res[p] = dict(exit=r.returncode, detected=any(l.startswith("VIOLATION") for l in lines),
-                          no_failing_input=any("no-failing-input-found" in l for l in lines), lines=[l[:400] for l in lines[:12]], wall_s=round(time.time() - t0))
+                          no_failing_input=any("no-failing-input-found" in l for l in lines),
+                          concrete=[l[:200] for l in lines if l.startswith("VIOLATION") and "no-failing-input-found" not in l], lines=[l[:400] for l in lines[:12]], wall_s=round(time.time() - t0))
             replay = None
             for l in lines:
                 m = re.match(r"VIOLATION property=\S+ replay=(\S+)", l)
